@@ -19,6 +19,7 @@ open State
 open Str
 open String
 open Tables
+open TyParse
 open Types
 open Visitor
 
@@ -1162,7 +1163,36 @@ let extras c model_out =
               (true, false, true, false, true, true, true, false)), (String
               ((Ascii (false, false, true, false, true, true, true, false)),
               EmptyString)))))))))))) alt)
-     else true))) :: [])))))))))))))))))))
+     else true))) :: (((s_ (String ((Ascii (false, false, true, false, true,
+                         true, true, false)), (String ((Ascii (true, false,
+                         false, true, true, true, true, false)), (String
+                         ((Ascii (true, true, true, true, true, false, true,
+                         false)), (String ((Ascii (true, true, true, false,
+                         false, true, true, false)), (String ((Ascii (false,
+                         true, false, false, true, true, true, false)),
+                         (String ((Ascii (true, false, false, false, false,
+                         true, true, false)), (String ((Ascii (true, false,
+                         true, true, false, true, true, false)), (String
+                         ((Ascii (true, false, true, true, false, true, true,
+                         false)), (String ((Ascii (true, false, false, false,
+                         false, true, true, false)), (String ((Ascii (false,
+                         true, false, false, true, true, true, false)),
+                         EmptyString))))))))))))))))))))),
+  (if e.e_opts.o_resolve_type
+   then let (p, bad) = grammar_cover e input in
+        let (a, b) = p in
+        app (dec_of_N a)
+          (app ((Npos (Coq_xI (Coq_xI (Coq_xI (Coq_xI (Coq_xO
+            Coq_xH)))))) :: [])
+            (app (dec_of_N b)
+              (app ((Npos (Coq_xI (Coq_xI (Coq_xI (Coq_xI (Coq_xO
+                Coq_xH)))))) :: []) (dec_of_N bad))))
+   else s_ (String ((Ascii (false, false, false, false, true, true, false,
+          false)), (String ((Ascii (true, true, true, true, false, true,
+          false, false)), (String ((Ascii (false, false, false, false, true,
+          true, false, false)), (String ((Ascii (true, true, true, true,
+          false, true, false, false)), (String ((Ascii (false, false, false,
+          false, true, true, false, false)), EmptyString)))))))))))) :: []))))))))))))))))))))
 
 (** val regex_table : jv -> str -> bool **)
 
